@@ -1,8 +1,10 @@
 #!/bin/sh
-# Offline setup: everything needed is already in /venv (hypothesis 6.168 incl.);
-# install hypothesis from the wheelhouse only if it is missing.
+# Offline setup: hypothesis is normally already in /venv; atheris (cp312 wheel) goes to .deps.
 set -e
 cd "$(dirname "$0")"
-/venv/bin/python -c "import hypothesis" 2>/dev/null || /venv/bin/pip install --no-index --find-links /opt/veriftools/wheels hypothesis
+/venv/bin/python -c "import hypothesis" 2>/dev/null || /venv/bin/pip install -q --no-index --find-links /opt/veriftools/wheels hypothesis
+if ! PYTHONPATH=.deps /venv/bin/python -c "import atheris" 2>/dev/null; then
+  /venv/bin/pip install -q --no-index --find-links /opt/veriftools/wheels --target .deps atheris || echo "atheris unavailable: the C14 fuzz campaign (thorough tier) will be skipped"
+fi
 /venv/bin/python -c "import hypothesis, xv.env; print('hypothesis', hypothesis.__version__)"
 mkdir -p evidence replays
